@@ -47,6 +47,8 @@ Row(w, e, legacy, expose, text, withDebug) ==
        hint_member |-> legacy /\ ~isRev /\ hint,
        debug_member |-> legacy /\ ~isRev /\ dbg /\ expose,
        debug_may_appear |-> expose /\ ~isRev,
+       \* the state is reflected into the redirect / the form page: the DECODED value must be the client's string, whatever
+       \* characters it holds (the harness sends & = + $ : @ ; # ? / quotes, angle brackets and %26 in the rows with hostile texts)
        state_echoed |-> w \in RedirectWriters ]
 
 Rows == { Row(w, e, l, x, t, d) : w \in Writers, e \in Errors, l \in BOOLEAN, x \in BOOLEAN, t \in Texts, d \in BOOLEAN }
